@@ -115,7 +115,14 @@ def append_step(prog: Program, rep: Report) -> None:
             rep.bad(rule, fi.qual, f"path {p.describe()}", "an error is raised after part of the state was already extended: arrays of different length", fi.loc(p.exit_node))
     rep.ok(rule, fi.qual, "validation errors are raised before any store", "checked on every raising path", fi.loc())
     # invalid names are rejected (pid cannot be supplied)
-    guards = [n for n in walk_no_nested(fi.node) if isinstance(n, ast.If) and isinstance(n.test, ast.Compare) and isinstance(n.test.ops[0], ast.NotIn) and any(isinstance(x, ast.Raise) for x in n.body)]
+    # a membership test against the set of admissible names, and a raise that precedes every store
+    loopdom = None
+    if len(loops) == 1 and isinstance(loops[0].iter, ast.Name):
+        loopdom = loops[0].iter.id
+    tests = [n for n in ast.walk(fi.node) if isinstance(n, ast.Compare) and isinstance(n.ops[0], (ast.NotIn, ast.In)) and loopdom is not None and unparse(n.comparators[0]) == loopdom]
+    first_store = min([n.lineno for n in walk_no_nested(fi.node) if isinstance(n, ast.Assign) and unparse(n.targets[0]).startswith(("self.variables[", "self.npid"))] or [10**9])
+    raises = [n for n in walk_no_nested(fi.node) if isinstance(n, ast.Raise) and n.lineno < first_store and n.exc is not None and "ValueError" in unparse(n.exc)]
+    guards = bool(tests) and bool(raises) and min(t.lineno for t in tests) <= max(r.lineno for r in raises)
     rep.check(rule, fi.qual, "arguments outside set(variables) - {pid} are rejected", bool(guards), what_bad="a caller could pass pid=... and overwrite identifiers", what_ok="ValueError", loc=fi.loc())
 
 
@@ -204,12 +211,16 @@ def no_reorder_on_output(prog: Program, rep: Report) -> None:
                 bad.append(node)
         rep.check(rule, fi.qual, "no sort / permutation / strided slice of state arrays", not bad, what_bad=f"reordering constructs: {[short(b) for b in bad]}", what_ok="none", loc=fi.loc())
     wr = prog.role_func("output", "write")
-    # values written are the state arrays themselves (sparse) or masked by alive (dense)
-    srcs = []
-    for node in walk_no_nested(wr.node):
-        if isinstance(node, ast.Assign) and isinstance(node.targets[0], ast.Subscript) and "self.nc.variables[var]" in unparse(node.targets[0]):
-            srcs.append(unparse(node.value))
-    rep.check(rule, wr.qual, f"instance data written: {srcs}", bool(srcs) and all(s in ("getattr(state, var)", "getattr(state, var)[state.alive]", "state[var]", "state[var][state.alive]") for s in srcs), what_bad="record data must be the state arrays in state order (optionally filtered by the alive mask)", what_ok="state order", loc=wr.loc())
+    # values written are the state arrays themselves (sparse) or masked by alive (dense): from the abstract evaluation
+    from .c06 import write_eval, stores_of
+
+    for layout in ("sparse", "dense"):
+        it, fr, log, _ = write_eval(prog, layout, finished=False)
+        st = stores_of(it)
+        dv = st.get("<var>", []) or st.get("var", [])
+        vals = [v for _, v in dv]
+        ok = bool(vals) and all(v.startswith("state.<") and (v.endswith(">") or v.endswith(">[state.alive]")) for v in vals)
+        rep.check(rule, wr.qual, f"{layout}: instance data written: {vals}", ok, what_bad="record data must be the state arrays in state order (optionally filtered by the alive mask)", what_ok="state order", loc=wr.loc())
 
 
 def run(prog: Program, rep: Report, tier: str) -> None:
